@@ -232,13 +232,19 @@ def check(col: Collector, tier: str):
     col.floor("C06.R5", 18)
     for be, (mod, exe, mdt, table) in BACKENDS.items():
         pmf, br = md_branch(repo, mdt)
-        body = ast.Module(body=br.body, type_ignores=[])
+        from sa.props._tr import inline_helper_calls, literal_str_collection
+        eff_body = inline_helper_calls(repo, pmf, br.body)
+        body = ast.Module(body=eff_body, type_ignores=[])
         allowed = None
-        for n in ast.walk(body):
-            if isinstance(n, ast.Compare) and isinstance(n.ops[0], ast.NotIn) and isinstance(n.comparators[0], (ast.List, ast.Tuple, ast.Set)):
-                allowed = [const_str(e) for e in n.comparators[0].elts]
-        if allowed is None:
-            raise AnalysisError(f"{mdt}: allowed key list not found")
+        notes: list = []
+        tests = [n for n in ast.walk(body) if isinstance(n, ast.Compare) and isinstance(n.ops[0], ast.NotIn) and isinstance(n.left, ast.Name)
+                 and any(isinstance(f_, ast.For) and src(f_.iter) in ("md.keys()", "md") and src(f_.target) == n.left.id for f_ in ast.walk(body))]
+        if len(tests) != 1:
+            raise AnalysisError(f"{mdt}: allowed key list not found ({len(tests)} `key not in <list>` tests over md.keys())")
+        scope = eff_body + [s_ for s_ in pmf.node.body]
+        allowed = sorted(literal_str_collection(repo, pmf.module, eff_body, tests[0].comparators[0], notes))
+        col.add("C06.R5", f"process_metadata.{mdt}", "allowed-keys-are-a-constant-of-this-backend", not notes,
+                f"the keys accepted for {mdt} must not depend on earlier declarations: {notes}", pmf.loc)
         read = set()
         for n in ast.walk(body):
             if isinstance(n, ast.Subscript) and src(n.value) == "md" and const_str(n.slice):
@@ -256,7 +262,7 @@ def check(col: Collector, tier: str):
             col.add("C06.R5", f"process_metadata.{mdt}", f"allowed-key-read:{k}", k in read,
                     f"key `{k}` is accepted for {mdt} but its value is never read (read keys {sorted(read)}): the declaration is silently ignored", pmf.loc)
         # unknown keys raise; consistency check raises
-        unk = [n for n in ast.walk(body) if isinstance(n, ast.For) and src(n.iter) == "md.keys()" and any(isinstance(r, ast.Raise) for r in ast.walk(n))]
+        unk = [n for n in ast.walk(body) if isinstance(n, ast.For) and src(n.iter) in ("md.keys()", "md") and any(isinstance(r, ast.Raise) for r in ast.walk(n))]
         col.add("C06.R5", f"process_metadata.{mdt}", "unknown-key-raises", len(unk) == 1, "every key must be checked against the allowed list, raising ValueError", pmf.loc)
         cons = [n for n in body.body if isinstance(n, ast.If) and "contains_collection" in src(n.test) and "element_type" in src(n.test)
                 and any(isinstance(r, ast.Raise) for r in n.body)]
@@ -288,6 +294,8 @@ def check(col: Collector, tier: str):
     from sa.props._tr import import_obligations
     import_obligations(col, "C06.R6", "c14", lambda o: o.construct == "template.atlas:link_libraries",
                        "two libraries rendered without a separator name a library that does not exist")
+    from sa.props._tr import check_no_state_on_query_nodes
+    check_no_state_on_query_nodes(col, "C06.R10", repo)   # every translation of a collection access declares its instance fields (tokens)
     # ------------------------------------------------------------ R6 de-duplication + forwarding
     col.floor("C06.R6", 4)
     for meth, lst in (("add_include", "_include_files"), ("add_link_library", "_link_libraries")):
